@@ -286,6 +286,9 @@ func c15Build(t *testing.T, r *vkit.Run, rg *vkit.Rand, setNo int) *c15Set {
 		}
 		reopened = true
 	}
+	if !x.Quiesce() {
+		r.Inconclusive("index compactions did not quiesce")
+	}
 	s.layout = x.Layout()
 	for k, v := range s.layout {
 		r.Event("index_files_"+k, int64(v))
